@@ -137,7 +137,7 @@ PROPERTIES = {
     ),
     "C01": dict(
         modules=["contracts.c01_results", "contracts.c05_result_fields", "contracts.c04_modules", "contracts.c01_inline"],
-        bounded=[_bounded.lazy("contracts.e2e_results", "bounded_results")],
+        bounded=[_bounded.lazy("contracts.e2e_results", "bounded_results"), _bounded.lazy("contracts.e2e_pruning", "bounded_pruned_packages")],
         explanation="union / non-abstract translators and field implementation under contract; acceptance, typed instances and round trip by the reference-executor stand-in",
         assumptions=["pydantic validates the emitted annotation forms as their names say (assumed; exercised by the stand-in)"],
     ),
